@@ -1,6 +1,6 @@
 (* Driver for the extracted model: one request per line on stdin, one result per line on stdout.
    Request: "<unit> <args...>" (space separated; lists comma separated; "-" = empty list). *)
-open Model
+open Train
 open Conv
 
 let handle (toks : string list) : string =
